@@ -22,3 +22,5 @@ pub fn bad_transfer(g: &mut impl GraphLike, v0: V, v1: V) {
     g.add_to_phase(v0, g.phase(v1));
     g.remove_vertex(v1);
 }
+
+pub fn full_simp(g: &mut crate::equality::G2) {}
